@@ -1335,7 +1335,8 @@ void eval_instruction (const char *p) {
                 }
               else if (sp->type == T_REAL)
                 {
-                  lval->u.number += (long)sp->u.real;
+                  /* like -=, *= and /=: the sum is truncated, not the operand */
+                  lval->u.number = (int64_t)(lval->u.number + sp->u.real);
                   /* both sides are numbers, no freeing required */
                 }
               else if (sp->type == T_STRING)
